@@ -74,13 +74,13 @@ class Analysis:
             try:
                 # generous helper inlining first; the usual limit when that explodes
                 found = None
-                for helper_paths, budget in ((24, 30000), (saved[1], None)):
+                for helper_paths, budget in ((32, 400000), (saved[1], None)):
                     if budget is not None and callee.fn.qn in self._no_generous:
                         continue
                     it.HELPER_PATHS, it.budget = helper_paths, budget
                     try:
                         found = it.paths_of(callee, assume, hole, which)
-                        if budget is None or len(found) <= 4000:
+                        if budget is None or len(found) <= 8000:
                             break
                         self._no_generous.add(callee.fn.qn)
                     except AnalysisError:
